@@ -11,12 +11,13 @@ CONSTANTS NX, NY,           \* largest lattice
           MaxFlagged,       \* at most this many cells flagged out
           CloseSingle       \* TRUE: one-row / one-column regions are closed above (repaired code)
 
-VARIABLES nx, ny,           \* lattice extent (number of columns / rows = edges per axis)
+VARIABLES stage,            \* 0: canonical order, no flags; 1: re-ordered / flagged variant
+          nx, ny,           \* lattice extent (number of columns / rows = edges per axis)
           polys,            \* sequence of cells <<i, j>> (0-based) in the order given = polygon index - 1
           flags,            \* sequence of 0/1 flags parallel to polys, or <<>> when no mask was given
           idxMap, mask      \* built: idxMap[j][i] polygon index (0-based) or -1; mask[j][i] TRUE = masked
 
-vars == <<nx, ny, polys, flags, idxMap, mask>>
+vars == <<stage, nx, ny, polys, flags, idxMap, mask>>
 
 Cells(a, b) == (0..(a - 1)) \X (0..(b - 1))
 Tight(act, a, b) ==
@@ -47,18 +48,28 @@ BuildMask(ps, fl, a, b) ==
         ELSE LET q == CHOOSE q \in PolyAt(ps, i - 1, j - 1) : TRUE IN
              IF fl = <<>> THEN FALSE ELSE fl[q] # 1]]
 
+\* Configurations are produced in two stages so that TLC's workers share the (expensive) invariant evaluation:
+\* initial states hold the cells in lexicographic order without flags; one step re-orders them and / or adds flags.
 Init ==
     /\ nx \in 1..NX /\ ny \in 1..NY
     /\ \E act \in SUBSET Cells(nx, ny) :
          /\ Tight(act, nx, ny)
-         /\ polys \in Orders(act)
-    /\ \/ flags = <<>>
-       \/ /\ flags \in [1..Len(polys) -> {0, 1}]
-          /\ Cardinality({q \in 1..Len(polys) : flags[q] = 0}) \in 1..MaxFlagged
+         /\ polys = SortedSeq(act)
+    /\ flags = <<>>
+    /\ stage = 0
     /\ idxMap = BuildIdx(polys, nx, ny)
     /\ mask = BuildMask(polys, flags, nx, ny)
 
-Next == UNCHANGED vars          \* the region is immutable; all quantification is over points
+Vary ==
+    /\ stage = 0 /\ stage' = 1
+    /\ polys' \in Orders({polys[q] : q \in 1..Len(polys)})
+    /\ \/ flags' = <<>>
+       \/ /\ flags' \in [1..Len(polys) -> {0, 1}]
+          /\ Cardinality({q \in 1..Len(polys) : flags'[q] = 0}) \in 1..MaxFlagged
+    /\ idxMap' = BuildIdx(polys', nx, ny)
+    /\ mask' = BuildMask(polys', flags', nx, ny)
+    /\ UNCHANGED <<nx, ny>>
+Next == Vary          \* the region itself is immutable; all further quantification is over points
 Spec == Init /\ [][Next]_vars
 
 \* what the property says the cell map is: polygon index of the valid cell at (i, j) or -1
